@@ -21,8 +21,8 @@ def build_corpus(out, tier, seed, wd, dump, kinds=("tokseq", "lexer", "programs"
             f.write(json.dumps(c, separators=(",", ":")) + "\n")
             n += 1
         if "tokseq" in kinds:
-            quick_cfgs = ["MC_TokenSeq_q3", "MC_TokenSeq_q4", "MC_TokenSeq_se5", "MC_TokenSeq_sep5", "MC_TokenSeq_ann4"] if not dump else ["MC_TokenSeq_q3", "MC_TokenSeq_grp5", "MC_TokenSeq_bal6", "MC_TokenSeq_sep5d", "MC_TokenSeq_ann4d"]
-            for cfg in (quick_cfgs if tier == "quick" else ["MC_TokenSeq_t4", "MC_TokenSeq_t3all", "MC_TokenSeq_t5", "MC_TokenSeq_bal7", "MC_TokenSeq_grp5", "MC_TokenSeq_sep5", "MC_TokenSeq_ann4"]):
+            quick_cfgs = ["MC_TokenSeq_q3", "MC_TokenSeq_q4", "MC_TokenSeq_se5", "MC_TokenSeq_sep5", "MC_TokenSeq_sep6d", "MC_TokenSeq_ann4"] if not dump else ["MC_TokenSeq_q3", "MC_TokenSeq_grp5", "MC_TokenSeq_bal6", "MC_TokenSeq_sep5d", "MC_TokenSeq_sep6d", "MC_TokenSeq_ann4d"]
+            for cfg in (quick_cfgs if tier == "quick" else ["MC_TokenSeq_t4", "MC_TokenSeq_t3all", "MC_TokenSeq_t5", "MC_TokenSeq_bal7", "MC_TokenSeq_grp5", "MC_TokenSeq_sep5", "MC_TokenSeq_sep6d", "MC_TokenSeq_ann4"]):
                 pp = os.path.join(wd, cfg + ".ndjson")
                 cnt, res = vlib.generate(out.pid, "MC_TokenSeq", cfg, pp, timeout=3000)
                 out.add_model(res)
